@@ -10,6 +10,7 @@ Shape semantics: every shape of a shape alphabet x every grid point: contains_po
 import contextlib
 import functools
 import itertools
+import json
 import math
 import os
 import pickle
@@ -28,7 +29,8 @@ ASSUMPTIONS = ["lanelet polygon = right boundary followed by the reversed left b
                "file routes write with the library's own writers at precision 4; all coordinates are multiples of 0.5"]
 
 ROUTES = ["from_list", "add_asc", "add_desc", "scenario_add", "xml", "pb", "deepcopy", "pickle", "from_network", "scenario_deepcopy", "add_no_rtree",
-          "swap_remove_first", "swap_add_first", "readd_moved"]
+          "swap_remove_first", "swap_add_first", "readd_moved", "shared_arrays_then_shift"]
+SHIFT = (16.0, -8.0)
 
 
 @functools.lru_cache(maxsize=None)
@@ -100,6 +102,27 @@ def build_network(ids, route, tmpdir):
             net.add_lanelet(lanelets[-1], rtree=False)
             net.remove_lanelet(other)
         return net
+    if route == "shared_arrays_then_shift":
+        # lanelets whose boundaries coincide are constructed from ONE ndarray object (a caller-owned array used twice), added one by one, and the
+        # finished network is shifted by a pure translation; the lookups are then made at the shifted places
+        import numpy as np
+        from commonroad.scenario.lanelet import Lanelet
+        arrays = {}
+
+        def arr(pts):
+            key = json.dumps([list(map(float, p)) for p in pts])
+            if key not in arrays:
+                arrays[key] = np.array(pts, dtype=float)
+            return arrays[key]
+        net = LaneletNetwork()
+        for i in ids:
+            sp_ = netgeo.lanelet_spec(i)
+            cen = sp_.get("center") or spec.center_of(sp_["left"], sp_["right"])
+            net.add_lanelet(Lanelet(arr(sp_["left"]), arr(cen), arr(sp_["right"]), i))
+        net.find_lanelet_by_position([np.array([0.0, 0.0])])
+        net.translate_rotate(np.array(SHIFT), 0.0)
+        net._verif_shift = SHIFT
+        return net
     if route == "from_network":
         base = LaneletNetwork.create_from_lanelet_list(lanelets)
         return LaneletNetwork.create_from_lanelet_network(base)
@@ -162,10 +185,11 @@ def check_network(ids, route_real, res, tmpdir):
         res.violation(f"C06|route:{route}|lanelets-lost", f"{have} != {sorted(ids)}", case)
         return
     pts = netgeo.grid_points()
+    sx, sy = getattr(net, "_verif_shift", (0.0, 0.0))
     # ---- by position
     res.transitions += 1
     try:
-        got = net.find_lanelet_by_position([np.array(p) for p in pts])
+        got = net.find_lanelet_by_position([np.array([p[0] + sx, p[1] + sy]) for p in pts])
     except Exception as e:
         res.violation(f"C06|find_lanelet_by_position|route:{route}|raises:{type(e).__name__}", repr(e), case)
         got = None
@@ -188,7 +212,7 @@ def check_network(ids, route_real, res, tmpdir):
     for l in net.lanelets:
         res.transitions += 1
         try:
-            flags = l.contains_points(np.array(pts))
+            flags = l.contains_points(np.array([[p[0] + sx, p[1] + sy] for p in pts]))
         except Exception as e:
             res.violation(f"C06|Lanelet.contains_points|route:{route}|raises:{type(e).__name__}", repr(e), case)
             continue
@@ -208,7 +232,7 @@ def check_network(ids, route_real, res, tmpdir):
             hit, und = hit_sets(sp, ids)
             res.evals += 1; res.transitions += 1
             try:
-                g = sorted(int(x) for x in net.find_lanelet_by_shape(spec.mk_shape(sp)))
+                g = sorted(int(x) for x in net.find_lanelet_by_shape(spec.mk_shape(netgeo.shape_at(sp0, ax + sx, ay + sy))))
             except Exception as e:
                 res.violation(f"C06|find_lanelet_by_shape|route:{route}|{sp[0]}|raises:{type(e).__name__}", repr(e), dict(case, shape=sp))
                 continue
@@ -223,6 +247,8 @@ def check_network(ids, route_real, res, tmpdir):
                               f"{case} shape {sp}: got {g} expected {hit} (undecided {und})", dict(case, shape=sp))
             res.outcomes[f"by_shape:{len(hit)}"] += 1
     # ---- obstacles
+    if (sx, sy) != (0.0, 0.0):
+        return          # (the obstacle part is done on the unshifted routes)
     obst = mk_query_obstacles()
     objs = [spec.mk_obstacle(o) for _, o, _ in obst]
     exp_map, und_map = {}, {}
